@@ -105,11 +105,11 @@ int main(int argc, char **argv) {
         if (light) one<MS1,sv::idrs<BE>>("amg-sa-spai0","idrs",p,rng,k,[](auto &s){ s.s=2; }); if (light) one<MS4,sv::idrs<BE>>("dummy","idrs-s1-smooth",p,rng,k,[](auto &s){ s.s=1; s.smoothing=true; }); if (light) one<MS3,sv::idrs<BE>>("ilu0","idrs-repl",p,rng,k,[](auto &s){ s.s=2; s.replacement=true; });
         one<MS1,sv::richardson<BE>>("amg-sa-spai0","richardson",p,rng,k,none); one<MS3,sv::richardson<BE>>("ilu0","richardson",p,rng,k,none);
     }
-    { Pattern p=hx::grid_pattern(3,2); namespace side=amgcl::preconditioner::side;
+    { Pattern p=hx::band_pattern(4,1); /* 4 unknowns: the cut-coefficient polynomials of 3 Krylov iterations on 6 unknowns need 3 GB per case */ namespace side=amgcl::preconditioner::side;
       for (int at=2; at<=(T?6:4); ++at) { int k=3;
         interrupted_case<sv::cg<BE>>("cg",p,rng,k,at,none); interrupted_case<sv::bicgstab<BE>>("bicgstab",p,rng,k,at,none); interrupted_case<sv::bicgstab<BE>>("bicgstab-left",p,rng,k,at,[](auto &s){ s.pside=side::left; });
         if (at<=3 || T) { interrupted_case<sv::bicgstabl<BE>>("bicgstabl-L2",p,rng,2,at,[](auto &s){ s.L=2; }); interrupted_case<sv::bicgstabl<BE>>("bicgstabl-L1-left",p,rng,2,at,[](auto &s){ s.L=1; s.pside=side::left; }); }   // BiCGStab(L) with cut coefficients is the memory hog: 2 iterations
-        interrupted_case<sv::gmres<BE>>("gmres",p,rng,k,at,[](auto &s){ s.M=2; }); interrupted_case<sv::fgmres<BE>>("fgmres",p,rng,k,at,[](auto &s){ s.M=2; }); interrupted_case<sv::lgmres<BE>>("lgmres",p,rng,k,at,[](auto &s){ s.M=2; s.K=1; });
+        interrupted_case<sv::gmres<BE>>("gmres",p,rng,2,at,[](auto &s){ s.M=2; }); interrupted_case<sv::fgmres<BE>>("fgmres",p,rng,2,at,[](auto &s){ s.M=2; }); if (at<=3 || T) interrupted_case<sv::lgmres<BE>>("lgmres",p,rng,2,at,[](auto &s){ s.M=2; s.K=1; });   // GMRES family: 2 iterations (a third one needs minutes and gigabytes per path)
         interrupted_case<sv::idrs<BE>>("idrs",p,rng,k,at,[](auto &s){ s.s=2; }); interrupted_case<sv::richardson<BE>>("richardson",p,rng,k,at,none); } }
     for (auto &p : std::vector<Pattern>{hx::band_pattern(3,1),hx::dense_pattern(3,3),hx::arrow_pattern(4)}) skyline_case(p);
     return hx::finish();
